@@ -55,6 +55,8 @@ def run(pid, tier):
                 sys.exit(2)
             st += p["distinct"]
             for v in p["verdicts"]:
+                if v["property"] != "C11":
+                    continue          # the monitor-bracket rule on these recordings belongs to C13's check
                 v["trace"] = p_
                 vs.append(v)
         return vs, st
